@@ -240,3 +240,57 @@ def methodCallPaid (regime : Nat) (name : String) (total : Nat) : Option Bool :=
   (reviewedCost regime name).map (fun c => decide (c ≤ total))
 
 end ZV.Pow
+
+namespace ZV.Pow
+open ZV
+
+/-! ## plasma accounting on a CHAIN (reorganisations, pool operations)
+
+`vm.AvailablePlasma(momentumStore(M), accountStore)` reads three figures: the QSR fused for the account in the plasma
+contract's storage AS OF the acknowledged momentum M, the account's chain-plasma counter as of M (`committed`) and the
+counter on the chain of blocks the new block extends (`uncommitted`). On a chain these are sums over what the chain holds:
+the Fuse / CancelFuse receives of the plasma contract confirmed up to M, and the fused plasma of the account's own blocks.
+Nothing else - in particular nothing of a branch the node was on before - may enter. -/
+
+/-- a Fuse (+amount) / CancelFuse (−amount) receive of the plasma contract for the account, confirmed by the momentum of
+    height `height` of the chain -/
+structure FuseEv where
+  height : Nat
+  delta : Int
+  deriving Repr, DecidableEq
+
+/-- a block of the account's chain below the new block: `conf` = height of the momentum of this chain that confirms it
+    (`none` = it sits in the unconfirmed pool), `fused` = its FusedPlasma -/
+structure AccBlk where
+  conf : Option Nat
+  fused : Nat
+  deriving Repr, DecidableEq
+
+def sumInt : List Int → Int
+  | [] => 0
+  | x :: xs => x + sumInt xs
+
+def sumNat : List Nat → Nat
+  | [] => 0
+  | x :: xs => x + sumNat xs
+
+/-- QSR fused for the account as of the momentum of height h: genesis entries + what the receives confirmed up to h moved -/
+def fusedQsrAt (genesis : Int) (evs : List FuseEv) (h : Nat) : Int :=
+  genesis + sumInt ((evs.filter (fun e => e.height ≤ h)).map (·.delta))
+
+def confirmedBy (h : Nat) (b : AccBlk) : Bool :=
+  match b.conf with
+  | some c => c ≤ h
+  | none => false
+
+/-- the account's chain-plasma counter as of momentum h (`GetChainPlasma` of the momentum store's account store) -/
+def committedAt (blocks : List AccBlk) (h : Nat) : Nat := sumNat ((blocks.filter (confirmedBy h)).map (·.fused))
+
+/-- the counter on the chain the new block extends (every earlier block, confirmed or pooled) -/
+def uncommittedOf (blocks : List AccBlk) : Nat := sumNat (blocks.map (·.fused))
+
+/-- `vm.AvailablePlasma` for a block of the account that acknowledges the momentum of height h of this chain -/
+def availableOnChain (genesis : Int) (evs : List FuseEv) (blocks : List AccBlk) (h : Nat) : Option Nat :=
+  availablePlasma (fusedQsrAt genesis evs h) (committedAt blocks h) (uncommittedOf blocks)
+
+end ZV.Pow
